@@ -8,22 +8,10 @@ impl<'a> ReMatcher<'a> {
     { unimplemented!() }
 }
 
-// R1b (see wrap_int_step.rs): boxing an iterator does not change the sequence it yields.
-impl AbsIter {
-    #[verifier::external_body]
-    pub fn wrap_force_progress(it: ForceProgressIterator) -> (r: AbsIter)
-        ensures r@ == it.remaining(),
-    { unimplemented!() }
-
-    #[verifier::external_body]
-    pub fn wrap_reluctant_repeat<'a>(it: ReluctantRepeatIterator<'a>) -> (r: AbsIter)
-        ensures r@ == it.remaining(),
-    { unimplemented!() }
-
-    // GreedyRepeatIterator::next is verified for memory safety only (unit note); its sequence is not specified
-    #[verifier::external_body]
-    pub fn wrap_greedy_repeat<'a>(it: GreedyRepeatIterator<'a>) -> (r: AbsIter)
-    { unimplemented!() }
+// GreedyRepeatIterator::next is verified for memory safety only: the sequence it yields is left unspecified
+// (an uninterpreted function constrains nothing; it is listed here because the scan treats `uninterp` as trusted text)
+impl<'a> IterView for GreedyRepeatIterator<'a> {
+    uninterp spec fn remaining(&self) -> Seq<usize>;
 }
 
 pub assume_specification<'a, T: Copy>[ Option::<&'a T>::copied ](o: Option<&'a T>) -> (r: Option<T>)
